@@ -434,7 +434,9 @@ pub fn gen_script(p: &mut Prng, class: usize, n: usize) -> Vec<u64> {
                 t = t.wrapping_add(jitter(p));
                 v.push(t);
             }
-            let stall = *p.pick(&STALL_LENGTHS) + p.below(3) as usize;
+            // (interpreter / sanitizer runs only use the short stalls)
+            let lens: &[usize] = if crate::util::REDUCED.load(Ordering::Relaxed) { &STALL_LENGTHS[..4] } else { &STALL_LENGTHS };
+            let stall = *p.pick(lens) + p.below(3) as usize;
             let kind = p.below(3);
             let step = p.range(1, 1000);
             let mut d = step;
